@@ -22,7 +22,7 @@ use octo_squirrel::manager::shadowsocks::ServerUser;
 use octo_squirrel::manager::shadowsocks::ServerUserManager;
 use octo_squirrel::protocol::address::Address;
 use octo_squirrel::protocol::shadowsocks::Mode;
-use octo_squirrel::protocol::shadowsocks::aead_2022::password_to_keys;
+use octo_squirrel::protocol::shadowsocks::aead_2022::config_password_to_keys;
 use rand::random;
 use tcp::PayloadCodec;
 use tcp::ServerContext;
@@ -87,7 +87,7 @@ async fn startup_udp<const N: usize>(config: &ServerConfig<SslConfig>, user_mana
     if config.mode.enable_udp() {
         // same credential format as for TCP: base64 key(s) for the 2022 ciphers, an ordinary password otherwise
         let (key, identity_keys): ([u8; N], Vec<[u8; N]>) = if config.cipher.is_aead_2022() {
-            password_to_keys(&config.password).map_err(|e| anyhow!(e))?
+            config_password_to_keys(&config.password).map_err(|e| anyhow!(e))?
         } else {
             (octo_squirrel::protocol::shadowsocks::aead::openssl_bytes_to_key(config.password.as_bytes()), Vec::with_capacity(0))
         };
@@ -329,7 +329,7 @@ mod tcp {
         pub fn init(config: &ServerConfig<SslConfig>, user_manager: Arc<ServerUserManager<N>>) -> Result<Self> {
             let kind = config.cipher;
             let (key, identity_keys) = if kind.is_aead_2022() {
-                password_to_keys(&config.password).map_err(|e| anyhow!(e))?
+                config_password_to_keys(&config.password).map_err(|e| anyhow!(e))?
             } else {
                 let key = aead::openssl_bytes_to_key(config.password.as_bytes());
                 (key, Vec::with_capacity(0))
